@@ -8,9 +8,12 @@ package main
 // plus the set of comparisons checkOCSPResponse makes (fail closed if the function disappears).
 
 import (
+	"bytes"
 	"go/ast"
 	"go/constant"
+	"go/printer"
 	"go/token"
+	"strings"
 )
 
 func init() { items = append(items, emitC14) }
@@ -67,4 +70,110 @@ func emitC14(t *tr) {
 			t.errf("stapleOCSP: expected exactly one `cert.Lifetime() < d`, found %d", found)
 		}
 	}
+	emitC14Shape(t)
+}
+
+// c14Src prints a node of the repo's source exactly, with all white space removed.
+func c14Src(t *tr, n ast.Node) string {
+	var b bytes.Buffer
+	printer.Fprint(&b, t.fset, n)
+	return strings.Join(strings.Fields(b.String()), "")
+}
+
+// c14Has reports whether function fn contains an if statement with exactly this condition, or
+// (kind "stmt") a statement with exactly this text, or (kind "ret") returns exactly this expression.
+func c14Has(t *tr, fn, kind, text string) bool {
+	fd := t.funcs[fn]
+	if fd == nil || fd.Body == nil {
+		return false
+	}
+	want := strings.Join(strings.Fields(text), "")
+	found := false
+	ast.Inspect(fd.Body, func(n ast.Node) bool {
+		switch x := n.(type) {
+		case *ast.IfStmt:
+			if kind == "if" {
+				cond := c14Src(t, x.Cond)
+				if x.Init != nil {
+					cond = c14Src(t, x.Init) + ";" + cond
+				}
+				if cond == want {
+					found = true
+				}
+			}
+		case *ast.AssignStmt:
+			if kind == "stmt" && c14Src(t, x) == want {
+				found = true
+			}
+		case *ast.ReturnStmt:
+			if kind == "ret" && len(x.Results) == 1 && c14Src(t, x.Results[0]) == want {
+				found = true
+			}
+		}
+		return true
+	})
+	return found
+}
+
+// c14Order reports whether, among the top-level statements of fn, one whose text starts with a
+// comes before one whose text starts with b.
+func c14Order(t *tr, fn, a, b string) bool {
+	fd := t.funcs[fn]
+	if fd == nil || fd.Body == nil {
+		return false
+	}
+	ia, ib := -1, -1
+	for i, st := range fd.Body.List {
+		src := c14Src(t, st)
+		if ia < 0 && strings.HasPrefix(src, strings.Join(strings.Fields(a), "")) {
+			ia = i
+		}
+		if ib < 0 && strings.HasPrefix(src, strings.Join(strings.Fields(b), "")) {
+			ib = i
+		}
+	}
+	return ia >= 0 && ib >= 0 && ia < ib
+}
+
+// emitC14Shape: the comparisons (with their direction), guards and statement order the Ocsp
+// model hard-codes, one boolean each; Ocsp/Proofs.v proves that all of them are true
+// (Lemma code_shape), so the proofs stop checking when the code no longer has this shape.
+func emitC14Shape(t *tr) {
+	flag := func(name string, ok bool, what string) {
+		v := "false"
+		if ok {
+			v = "true"
+		}
+		t.p("Definition ocsp_tie_%s : bool := %s. (* %s *)\n", name, v, what)
+	}
+	const chk = "checkOCSPResponse"
+	flag("serial", c14Has(t, chk, "if", `leaf != nil && (resp.SerialNumber == nil || leaf.SerialNumber == nil || resp.SerialNumber.Cmp(leaf.SerialNumber) != 0)`), "checkOCSPResponse: serial numbers must be equal")
+	flag("this_after_now", c14Has(t, chk, "if", `resp.ThisUpdate.After(now)`), "checkOCSPResponse: rejects thisUpdate > now (r_this <= now)")
+	flag("next_not_before", c14Has(t, chk, "if", `!resp.NextUpdate.IsZero() && !now.Before(resp.NextUpdate)`), "checkOCSPResponse: zero nextUpdate never expires, else now < nextUpdate")
+	flag("rc_is_delegate", c14Has(t, chk, "if", `rc := resp.Certificate; rc != nil && leaf != nil && leaf.CheckSignatureFrom(rc) != nil`), "checkOCSPResponse: embedded certificate that is not the issuer itself")
+	flag("rc_validity", c14Has(t, chk, "if", `now.Before(rc.NotBefore) || now.After(rc.NotAfter)`), "checkOCSPResponse: responder certificate valid now (nb <= now <= na)")
+	flag("rc_eku", c14Has(t, chk, "if", `eku == x509.ExtKeyUsageOCSPSigning`) && c14Has(t, chk, "if", `!ocspSigning`), "checkOCSPResponse: responder certificate has id-kp-OCSPSigning")
+	const st = "stapleOCSP"
+	flag("disabled", c14Has(t, st, "if", `ocspConfig.DisableStapling`), "stapleOCSP: DisableStapling returns at once")
+	flag("chain_issuer", c14Has(t, st, "if", `len(cert.Certificate.Certificate) > 1`) && c14Has(t, st, "if", `err == nil && issuerCert != nil`), "stapleOCSP: persisted staple only looked at with the issuer from the chain")
+	flag("reuse_cond", c14Has(t, st, "if", `freshOCSP(resp) && checkOCSPResponse(resp, cert.Leaf) == nil`), "stapleOCSP: reuse iff fresh and valid for this certificate")
+	flag("ask_cond", c14Has(t, st, "if", `ocspResp == nil || len(ocspBytes) == 0`), "stapleOCSP: responder asked iff nothing reusable")
+	flag("check_all", c14Has(t, st, "if", `err := checkOCSPResponse(ocspResp, cert.Leaf); err != nil`), "stapleOCSP: every response goes through checkOCSPResponse")
+	flag("overlong", c14Has(t, st, "if", `ocspResp.NextUpdate.After(expiresAt(cert.Leaf))`), "stapleOCSP: rejects nextUpdate > expiresAt (r_next <= c_expiry)")
+	flag("good_only", c14Has(t, st, "if", `ocspResp.Status == ocsp.Good`), "stapleOCSP: staples (and persists) only Good")
+	flag("persist_new_only", c14Has(t, st, "if", `gotNewOCSP`), "stapleOCSP: persists only what it fetched")
+	flag("order", c14Order(t, st, `if err := checkOCSPResponse(`, `if ocspResp.NextUpdate.After(`) &&
+		c14Order(t, st, `if ocspResp.NextUpdate.After(`, `cert.ocsp = ocspResp`) &&
+		c14Order(t, st, `cert.ocsp = ocspResp`, `if ocspResp.Status == ocsp.Good`), "stapleOCSP: checks, then cert.ocsp, then the staple")
+	flag("fresh_cap", c14Has(t, "freshOCSP", "if", `resp.Certificate != nil && resp.Certificate.NotAfter.Before(nextUpdate)`), "freshOCSP: validity capped by the responder certificate's NotAfter")
+	flag("fresh_before", c14Has(t, "freshOCSP", "ret", `time.Now().Before(refreshTime)`), "freshOCSP: now < refresh time")
+	const up = "Cache.updateOCSPStaples"
+	flag("tick_skip_expired", c14Has(t, up, "if", `cert.Leaf == nil || cert.Expired()`), "updateOCSPStaples: expired certificates are skipped")
+	flag("tick_skip_fresh", c14Has(t, up, "if", `cert.ocsp.Status != ocsp.Unknown && freshOCSP(cert.ocsp)`), "updateOCSPStaples: fresh and not Unknown => skipped")
+	flag("tick_writeback", c14Has(t, up, "if", `cert.ocsp != nil && cert.ocsp.Status == ocsp.Good && (lastNextUpdate.IsZero() || lastNextUpdate != cert.ocsp.NextUpdate)`), "updateOCSPStaples: write-back condition")
+	flag("force_renew", c14Has(t, "certShouldBeForceRenewed", "ret", `cert.managed && len(cert.Names) > 0 && cert.ocsp != nil && cert.ocsp.Status == ocsp.Revoked`), "certShouldBeForceRenewed")
+	flag("hs_due", c14Has(t, "Config.handshakeMaintenance", "if", `cert.ocsp != nil && !freshOCSP(cert.ocsp)`), "handshakeMaintenance: refresh iff a status is recorded and not fresh")
+	flag("hs_renew", c14Has(t, "Config.handshakeMaintenance", "if", `certShouldBeForceRenewed(cert)`), "handshakeMaintenance: revoked => forced renewal")
+	flag("manage_renew", c14Has(t, "Config.manageOne", "if", `!cert.Expired() && cert.ocsp != nil && cert.ocsp.Status == ocsp.Revoked`), "manageOne: unexpired revoked => forceRenew at once")
+	flag("renew_evict", c14Has(t, "Config.forceRenew", "if", `cert.ocsp != nil && cert.ocsp.Status == ocsp.Revoked`) && c14Has(t, "Config.forceRenew", "if", `err != nil && cert.ocsp != nil && cert.ocsp.Status == ocsp.Revoked`), "forceRenew: a revoked certificate that cannot be replaced (or whose replacement cannot be loaded) is removed")
 }
